@@ -523,7 +523,7 @@ CHECKS = {
         ["device authorization response: 4 alphabets (incl. a single character and non-ASCII runes) x 5 lengths x 5 dash intervals, 40 codes / responses per case; "
          "unguessability of the device code is checked as length (>= 128 bit) and pairwise distinctness only; empty alphabets / zero lengths are non-configurations; "
          "the deprecated absolute UserFormURL is not exercised"],
-        world=True),
+        world=True, extra=[("closed_loop", lambda pid, tier, seed, wd: __import__("misc").flow_part(pid, tier, seed, wd, ("C16.",)))]),
     "C20": c20_check,
     "C05": composed_check("C05",
         [dict(module="Assertion", sub="tbl-assertion", prefixes=("C05.",), sig=lambda o: c14a_sig(o), need=lambda o: c14a_need(o),
